@@ -1,7 +1,7 @@
 #!/bin/bash
 # usage: tools/run_all.sh <tier> [ids...]  -- runs checks sequentially, prints one line per check
 tier=$1; shift
-ids="$@"; [ -z "$ids" ] && ids=$(ls props/c*.py | sed 's/.*c\([0-9]*\).py/C\1/')
+ids="$@"; [ -z "$ids" ] && ids=$(ls props/c[0-9][0-9].py | sed 's/.*c\([0-9]*\).py/C\1/')
 for id in $ids; do
   s=$(date +%s); out=$(timeout 3600 ./check $id --tier $tier 2>&1); rc=$?; e=$(date +%s)
   echo "$id $tier rc=$rc $((e-s))s $(echo "$out" | grep -E "^$id " | cut -c1-160)"
